@@ -1,3 +1,4 @@
+import numbers
 from abc import ABC, abstractmethod
 
 from sklearn.utils.validation import check_is_fitted
@@ -54,6 +55,8 @@ class MatrixMixin:
 
         if n_basis_modes is None:
             n_basis_modes = self.n_basis_modes
+        elif not isinstance(n_basis_modes, numbers.Integral) or n_basis_modes <= 0:
+            raise ValueError("n_basis_modes must be a positive integer")
         elif n_basis_modes > self.n_basis_modes:
             raise ValueError(
                 f"Requested number of modes {n_basis_modes} exceeds"
